@@ -470,6 +470,8 @@ def parseRegSeqOp (s : String) : Option RegSeq.Op :=
   | ["M", h] => some (.names (natOf h))
   | ["U", h] => some (.sources (natOf h))
   | ["L", h] => some (.listing (natOf h))
+  | ["X", h, kind] => some (.runKind (natOf h) (if kind == "crl" then .crl else if kind == "ocsp" then .ocsp else .cert))
+  | ["K", h] => some (.lookups (natOf h))
   | _ => none
 
 def opRegSeq (fields : List String) : String :=
